@@ -17,7 +17,7 @@ Definition xpc_code (xw : xworld) (t : nat) : Z :=
   | XwLoad6 _ => 7 | XwConfirm _ => 8 | XwLoad13 _ => 9 | XwReacq _ => 10 | XkLoad _ => 11 | XkSelect _ => 12
   | XvLoad1 _ => 13 | XvCas1 _ _ => 14 | XvLoad3 _ => 15 | XvCas2 _ _ => 16 | XvLoad5 _ => 17 | XvStore _ => 18 | XvV _ _ => 19
   | XnStore0 _ => 20 | XnEnq _ => 21 | XnUnlock _ => 22 | XnReady _ => 23 | XnSem _ => 24 | XnDeq _ => 25 | XnSpin _ => 26
-  | XnReacq _ => 27
+  | XnReacq _ => 27 | XgStore _ => 28
   | XCrash _ => 99
   end.
 (* a mutex operation of the thread is in progress (MuModel pc not Idle, or an operation handed over and not begun) *)
@@ -49,3 +49,8 @@ Definition last_ret_ok (xw : xworld) (t : nat) : bool :=
   | [] => true
   end.
 Definition xferred_of (xw : xworld) (t : nat) : bool := xferred xw t.
+(* the thread's record on the cv is the record of an nsync_wait_n call *)
+Definition xn_rec_of (xw : xworld) (t : nat) : bool := xn_rec (x_pc (xget xw t)).
+(* the ghost result "outcome != 0" of the cv wait whose re-acquisition is in progress *)
+Definition reacq_out (xw : xworld) (t : nat) : option bool :=
+  match x_pc (xget xw t) with XwReacq l => Some (w_out l) | _ => None end.
